@@ -912,3 +912,35 @@ def relation_of_label(fn, lab):
         left = {names[n] for n in (lab.get("variant") or "").split("|") if n in names}
         return info[0], info[1], left or {"lt", "eq", "gt"}
     return None
+
+
+def segment_summaries(fn, start, stops, edge_fact=None, block_fact=None, include_start_fact=True):
+    """like path_summaries but paths end when they reach a block in `stops` (after leaving `start`) or a Return.
+    returns list of (facts, end_block) with end_block the stop/return block reached."""
+    ex = Explorer(fn)
+    out = set()
+    stops = set(stops)
+
+    def step(b, st, env):
+        first, facts = st
+        if not first and (b in stops):
+            out.add((facts, b))
+            return None
+        if block_fact and (include_start_fact or not first):
+            extra = list(block_fact(b) or ())
+            if extra:
+                facts = facts | frozenset(extra)
+        if fn.term(b)["t"] == "return":
+            out.add((facts, b))
+            return None
+        return (False, facts)
+
+    def edge(b, s, labs, st, env):
+        first, facts = st
+        if edge_fact:
+            extra = list(edge_fact(b, s, labs) or ())
+            if extra:
+                facts = facts | frozenset(extra)
+        return (first, facts)
+    ex.walk(start, (True, frozenset()), step, edge=edge)
+    return sorted(out, key=repr)
